@@ -201,7 +201,15 @@ class RefMap:
         res = RESULT_KIND[fname]
         if fname == "READFILTER":
             # contract of ecb_read_filter: numeric value of the item, 0 for the empty item (checked against the text by C20)
-            value = m.sem.apply("READFILTER", list(vals), "n")
+            value = None
+            if len(vals) == 1 and z3.is_string_value(vals[0]):
+                text = vals[0].as_string()
+                try:
+                    value = m.sem.num(0.0 if text == "" else float(text))
+                except ValueError:
+                    value = None
+            if value is None:
+                value = m.sem.apply("READFILTER", list(vals), "n")
             st.trace.append(("read-filter", tuple(vals)))
         else:
             value = m.convertible(st, fname, vals, res)
